@@ -1,4 +1,4 @@
 SPECIFICATION XSpec
-CONSTANTS U = "ex2q" F = "one"
+CONSTANTS U = "ex23q" F = "one"
 INVARIANT EmitVec
 CHECK_DEADLOCK FALSE
